@@ -132,6 +132,40 @@ def _freeze(a):
     return a
 
 
+class Bomb:
+    """A reference value whose pickling (dump) or unpickling (load) fails on command: the pickling operation as the point of
+    failure of a save or a load."""
+    ARM = {"dump": 0, "load": 0}
+    FIRED = {"dump": 0, "load": 0}
+
+    def __init__(self, tag=0):
+        self.tag = tag
+
+    def __reduce__(self):
+        if Bomb.ARM["dump"] > 0:
+            Bomb.ARM["dump"] -= 1
+            Bomb.FIRED["dump"] += 1
+            raise InjectedError("injected pickling failure")
+        return (_unbomb, (self.tag,))
+
+    def __eq__(self, other):
+        return isinstance(other, Bomb) and other.tag == self.tag
+
+    def __hash__(self):
+        return hash(("Bomb", self.tag))
+
+    def __repr__(self):
+        return "Bomb(%r)" % (self.tag,)
+
+
+def _unbomb(tag):
+    if Bomb.ARM["load"] > 0:
+        Bomb.ARM["load"] -= 1
+        Bomb.FIRED["load"] += 1
+        raise InjectedError("injected unpickling failure")
+    return Bomb(tag)
+
+
 def neg(x):
     """A harness function used to shadow a builtin name (abs) with a different behaviour."""
     return -x - 1000
@@ -147,6 +181,8 @@ def reset():
     global PLAN
     PLAN = None
     LAST_RAISED[0] = None
+    Bomb.ARM.update(dump=0, load=0)
+    Bomb.FIRED.update(dump=0, load=0)
 
 
 def arm(plan):
